@@ -47,7 +47,10 @@ def run_variant(v, repo_root):
         for prop in v['props']:
             pr = subprocess.run([os.path.join(VERIF, 'check'), prop, '--repo', tmp], stdout=subprocess.PIPE, stderr=subprocess.STDOUT, env=env)
             out = pr.stdout.decode()
-            results[prop] = (pr.returncode, out)
+            rc = pr.returncode
+            if rc == 1 and 'VIOLATION property=' not in out:
+                rc = 2
+            results[prop] = (rc, out)
         want = 1 if v['kind'] == 'fires' else 0
         if v['kind'] == 'fires':
             ok = any(rc == 1 for rc, _ in results.values())
